@@ -157,6 +157,45 @@ def run_aborts(out):
                      lambda c: "%s: the device aborts the connection (%s)" % (c["cls"], c["form"]), sample=lambda c: c, classify=lambda c, i: "abort/" + c["form"])
 
 
+def run_every_operation(out, rnd):
+    """a session in which one operation of every kind is made (accepted arguments, a device that answers properly): an operation is not a
+    connect and not a disconnect - the flag stays up and the device keeps its one connection until the caller disconnects.  And the same
+    after the device has hung up in an orderly way (end of stream): whatever the operation does then, disconnect() ends disconnected"""
+    async def one(cls, kind, hangup):
+        ip = world.loopback_ip(12); dev = Dev(ip, 9957 if cls is SwitcherType1Api else 10000); await dev.listen(True)
+        api = cls(ip, "ab1c2d", "18"); log = []; c = world.rand_op_case(rnd, kind, "valid", True)
+        try:
+            await api.connect(); dev.open = 1; dev.eofs = 0
+            if hangup:
+                dev.policy = lambda n, d: b""            # the device ends its stream at the first thing it hears
+                try: await asyncio.wait_for(api.get_state() if cls is SwitcherType1Api else api.get_shutter_state(), PATIENCE)
+                except Exception: pass
+                await settle(); await asyncio.sleep(0.02)
+            else: dev.script[:] = [bytes.fromhex(r) for r in c["replies"]]
+            try: await asyncio.wait_for(world.call_op(api, kind, c["args"]), PATIENCE); o = "returned"
+            except asyncio.TimeoutError: o = "never-returned"
+            except Exception: o = "raised"
+            await settle()
+            log.append(("operation %s; " % o if not hangup else "") + "connected=%s" % api.connected + ("" if hangup else " open=%d" % dev.open))
+            try: await asyncio.wait_for(api.disconnect(), PATIENCE)
+            except asyncio.TimeoutError: log.append("disconnect never returned")
+            except Exception: pass
+            await settle(); log.append("connected=%s open=%d" % (api.connected, dev.open))
+        except Exception as e: log.append("unexpected " + type(e).__name__)
+        finally: await dev.listen(False)
+        return "; ".join(log)
+    cases = [{"cls": cls.__name__, "kind": k, "after_hangup": h} for cls, ks in ((SwitcherType1Api, [1, 2, 3, 4, 5, 6, 11]), (SwitcherType2Api, [7, 8, 9])) for k in ks for h in (False, True)]
+    by = {"SwitcherType1Api": SwitcherType1Api, "SwitcherType2Api": SwitcherType2Api}
+    async def go(): return [await asyncio.wait_for(one(by[c["cls"]], c["kind"], c["after_hangup"]), 90) for c in cases]
+    io = asyncio.run(go())
+    # after a hang-up whether the flag is still up before disconnect() is not judged (the client has not been told); the outcome of the operation is C09's
+    io = [i.replace("connected=True; connected=False open=0", "connected=False open=0", 1) if c["after_hangup"] else i.replace("operation raised", "operation returned") for i, c in zip(io, cases)]
+    want = ["connected=False open=0" if c["after_hangup"] else "operation returned; connected=True open=1; connected=False open=0" for c in cases]
+    lib.differential(out, "one-operation-of-every-kind-in-a-session", cases, io, None, want,
+                     lambda c: "%s: connect, %s%s, disconnect" % (c["cls"], "the device hangs up, " if c["after_hangup"] else "", world.KIND_NAMES[c["kind"]]), sample=lambda c: c,
+                     classify=lambda c, i: "every-op/" + ("after-hangup" if c["after_hangup"] else "answered"))
+
+
 def run_context_bodies(out):
     """what the body of `async with api:` does with the connection - disconnects, reconnects, connects once more - does not change what leaving
     the context means: the client is disconnected and the device holds no open connection of it"""
@@ -348,6 +387,7 @@ def run(tier, rnd, out):
     run_aborts(out)
     run_context_bodies(out)
     run_pushed_data(out)
+    run_every_operation(out, rnd)
     out.exhaustive = True
     out.notes.append("exhaustive over all action sequences up to length %d for both classes" % (3 if tier == "quick" else 4))
 
@@ -356,5 +396,8 @@ def replay(rp, out):
     if "form" in (rp.get("input") or {}): return run_aborts(out)
     if "body" in (rp.get("input") or {}): return run_context_bodies(out)
     if "kib" in (rp.get("input") or {}): return run_pushed_data(out)
+    if "after_hangup" in (rp.get("input") or {}):
+        import random
+        return run_every_operation(out, random.Random(int(rp.get("seed", 1))))
     c = rp["input"]; by = {"SwitcherType1Api": SwitcherType1Api, "SwitcherType2Api": SwitcherType2Api}
     run_sequences(out, rp.get("stream", "replay"), by[c["cls"]], [[tuple(a) for a in c["acts"]]])
